@@ -19,16 +19,16 @@ Arguments Raise {A} e.
 Arguments Diverged {A}.
 
 (** A computation: its result and the number of loop iterations it executed. *)
-Definition M (A : Type) : Type := (res A * nat)%type.
+Definition M (A : Type) : Type := (res A * N)%type.
 
-Definition ret {A} (a : A) : M A := (Ok a, O).
-Definition raise {A} (e : exn) : M A := (Raise e, O).
-Definition diverged {A} : M A := (Diverged, O).
-Definition tick : M unit := (Ok tt, 1%nat).
+Definition ret {A} (a : A) : M A := (Ok a, 0%N).
+Definition raise {A} (e : exn) : M A := (Raise e, 0%N).
+Definition diverged {A} : M A := (Diverged, 0%N).
+Definition tick : M unit := (Ok tt, 1%N).
 
 Definition bind {A B} (m : M A) (f : A -> M B) : M B :=
   match fst m with
-  | Ok a => let r := f a in (fst r, (snd m + snd r)%nat)
+  | Ok a => let r := f a in (fst r, (snd m + snd r)%N)
   | Raise e => (Raise e, snd m)
   | Diverged => (Diverged, snd m)
   end.
